@@ -361,3 +361,106 @@ pub fn property() -> Property {
         ],
     }
 }
+
+// ------------------------------------------------------------------ C02: where the agent writes
+
+/// C02's last clause on the full run: the agent writes nothing outside its own ephemeral
+/// instance. The real `Updater::run` against the recording fake Junos, with the reply to
+/// `<open-configuration>` positive or one of the failing kinds: every `<load-configuration>` and
+/// every `<commit-configuration>` the server receives must come after a positively acknowledged
+/// `<open-configuration>` naming the configured instance on that session (otherwise they land in
+/// the shared candidate / the static database), and before `<close-configuration>`.
+pub struct C02Writes;
+
+impl Prop for C02Writes {
+    type Case = Case;
+    fn name(&self) -> &'static str {
+        "writes-stay-in-the-ephemeral-instance"
+    }
+    fn rule(&self) -> String {
+        "the agent's real run (real session, real evaluator, fake IRRd) against the recording fake Junos with 0..4 managed policies and 0..2 stale ones; the reply to <open-configuration> is positive or one of: rpc-error, error then warning, warning then error, truncated, wrong root, not XML, unknown message-id, connection closed. Oracle: every load-configuration and commit-configuration received lies between a positively acknowledged open-configuration that names the configured ephemeral instance and the close-configuration of that session; the fake Junos saw no protocol error. Non-trivial = the open was not positively acknowledged; distinct by case".into()
+    }
+    fn cases(&self, tier: Tier) -> u32 {
+        tier.pick(2_000, 100_000)
+    }
+    fn strategy(&self, _tier: Tier) -> BoxedStrategy<Case> {
+        const KINDS: [FaultKind; 9] = [
+            FaultKind::RpcError,
+            FaultKind::ErrorThenWarning,
+            FaultKind::WarningThenError,
+            FaultKind::Truncated,
+            FaultKind::WrongRoot,
+            FaultKind::NotXml,
+            FaultKind::UnknownMessageId,
+            FaultKind::CloseBeforeReply,
+            FaultKind::NoAck,
+        ];
+        (
+            prop::collection::vec((any::<u16>().prop_map(|m| m & 0xfff), any::<u16>().prop_map(|m| m & 0xfff)), 0..5),
+            0u8..3,
+            prop::option::weighted(0.7, 0usize..KINDS.len()),
+        )
+            .prop_map(|(managed, stale, k)| Case {
+                managed,
+                stale,
+                fault: k.map(|k| Fault { at: 0, kind: KINDS[k].clone() }),
+            })
+            .boxed()
+    }
+    fn check(&self, case: &Case) -> Obs {
+        let mut obs = Obs::default();
+        let (stmts, db) = scenario(&case.managed);
+        let irrd = match FakeIrrd::start(db, 0) {
+            Ok(s) => s,
+            Err(e) => {
+                obs.fail("harness-sanity:fake-irrd", format!("{e}"));
+                return obs;
+            }
+        };
+        let fake = Arc::new(Mutex::new(FakeJunos::new("bgpfu")));
+        {
+            let mut f = fake.lock().unwrap();
+            f.running = stmts;
+            f.ephemeral = stale_config(case.stale);
+            f.faults = case.fault.iter().cloned().collect();
+        }
+        let result = crate::fullrun::agent_run(crate::fullrun::Runner::Hook, &fake, ("127.0.0.1", irrd.port), "bgpfu");
+        let (log, errors) = {
+            let f = fake.lock().unwrap();
+            (f.log.clone(), f.protocol_errors.clone())
+        };
+        obs.class(match &case.fault {
+            None => "open:acknowledged".to_string(),
+            Some(f) => format!("open:{:?}", f.kind),
+        });
+        obs.nontrivial = case.fault.is_some();
+        let names: Vec<&str> = log.iter().map(|r| r.name.as_str()).collect();
+        let ctx = format!("fault={:?} rpcs received: {names:?} result: {result:?}", case.fault);
+        if result == RunResult::Stuck {
+            obs.fail("run-never-completes", ctx);
+            return obs;
+        }
+        let mut open = false;
+        for r in &log {
+            match r.name.as_str() {
+                "open-configuration" => open = r.positive_reply,
+                "close-configuration" => open = false,
+                "load-configuration" | "commit-configuration" if !open => {
+                    obs.fail(
+                        format!("write-outside-the-ephemeral-instance:{}", r.name),
+                        format!("{} received while no ephemeral instance was open on the session; {ctx}", r.name),
+                    );
+                    return obs;
+                }
+                _ => {}
+            }
+        }
+        if let Some(e) = errors.first() {
+            obs.fail("protocol-error-seen-by-the-server", format!("{e}; {ctx}"));
+        }
+        obs
+    }
+    fn assumptions(&self) -> Vec<String> {
+        vec!["the fake Junos accepts <open-configuration> only for the configured instance name and records a protocol error otherwise".into()]
+    }
+}
